@@ -132,7 +132,9 @@ class Layout:
 
 
 class _Case(Exception):
-    pass
+    def __init__(self, asked=None):
+        super().__init__(asked)
+        self.asked = asked
 
 
 class Interp1:
@@ -229,7 +231,14 @@ class Interp1:
         txt = src(e)
         # len(x) > 0 on a symbolic length: case split decided by the driver
         if isinstance(e, ast.Compare) and len(e.ops) == 1:
-            l, r = self.ev(e.left), self.ev(e.comparators[0])
+            try:
+                l, r = self.ev(e.left), self.ev(e.comparators[0])
+            except AnalysisError:
+                # a condition on the CONTENT of a nested block: undecidable here, explored both ways
+                if txt not in self.decisions:
+                    self.asked.append(txt)
+                    raise _Case(txt)
+                return self.decisions[txt]
             if isinstance(l, Aff) and isinstance(r, Aff) and l.is_const() and r.is_const():
                 op = e.ops[0]
                 return {ast.Gt: l.c > r.c, ast.Lt: l.c < r.c, ast.GtE: l.c >= r.c, ast.LtE: l.c <= r.c, ast.Eq: l.c == r.c, ast.NotEq: l.c != r.c}[type(op)]
@@ -242,15 +251,17 @@ class Interp1:
                     return True
             if txt not in self.decisions:
                 self.asked.append(txt)
-                raise _Case()
+                raise _Case(txt)
             return self.decisions[txt]
+        if isinstance(e, ast.UnaryOp) and isinstance(e.op, ast.Not):
+            return not self.cond(e.operand)
         if isinstance(e, ast.BoolOp) and isinstance(e.op, ast.And):
             return all(self.cond(v) for v in e.values)
         if isinstance(e, ast.BoolOp) and isinstance(e.op, ast.Or):
             return any(self.cond(v) for v in e.values)
         if txt not in self.decisions:
             self.asked.append(txt)
-            raise _Case()
+            raise _Case(txt)
         return self.decisions[txt]
 
     def store(self, t, v):
@@ -380,42 +391,64 @@ def find_cases(fn):
     return out
 
 
-def run_case(stmts, kind, k=None, esplit=None):
-    """Interpret one case block; returns (layout, env, decisions)."""
-    decisions = {}
-    for _ in range(16):
-        it = Interp1(dict(decisions), branches_k=k)
-        lay = Layout()
-        # a symbolic prefix: the construct starts at an arbitrary position P of the output list
-        lay.items.append(Seg("P", Aff.sym("P")))
-        env = {"elements": lay}
-        if kind in ("if", "while"):
-            el = El({"_type": kind}, name=kind)
-            env["element"] = el
-        else:
-            # k branches: items[i], items[i+1].. are lists; modelled directly as `branches`
-            env["item"] = "B0"
-            env["items"] = ["B%d" % j for j in range(k)]
-            env["i"] = Aff(0)
-        if esplit is not None:
-            it.substs["E"] = Aff(0) if esplit == 0 else Aff.sym("E")
-            decisions.setdefault("len(else_elements) > 0", esplit != 0)
-            it.decisions = dict(decisions)
+def _run_once(stmts, kind, k, esplit, decisions):
+    it = Interp1(dict(decisions), branches_k=k)
+    lay = Layout()
+    # a symbolic prefix: the construct starts at an arbitrary position P of the output list
+    lay.items.append(Seg("P", Aff.sym("P")))
+    env = {"elements": lay}
+    if kind in ("if", "while"):
+        env["element"] = El({"_type": kind}, name=kind)
+    else:
+        env["item"] = "B0"
+        env["items"] = ["B%d" % j for j in range(k)]
+        env["i"] = Aff(0)
+    if esplit is not None:
+        it.substs["E"] = Aff(0) if esplit == 0 else Aff.sym("E")
+        it.decisions.setdefault("len(else_elements) > 0", esplit != 0)
+    if kind == "branch":
+        # the collection of consecutive branches is gathered by a while loop over `items`; we
+        # start the interpretation after it with `branches` = the k raw blocks
+        start = 0
+        for idx, st in enumerate(stmts):
+            if isinstance(st, ast.While) and "isinstance(items[i + 1], list)" in src(st.test):
+                start = idx + 1
+        env["branches"] = ["br%d" % j for j in range(k)]
+        it.run(stmts[start:], env)
+    else:
+        it.run(stmts, env)
+    return lay, it
+
+
+def run_case_all(stmts, kind, k=None, esplit=None):
+    """All interpretations of one case block: every undecidable condition is explored both ways.
+    -> [(layout, interp, decisions)]"""
+    out = []
+    pending = [{}]
+    seen = set()
+    while pending:
+        dec = pending.pop()
+        key = tuple(sorted(dec.items()))
+        if key in seen:
+            continue
+        seen.add(key)
         try:
-            if kind == "branch":
-                # the collection of consecutive branches is gathered by a while loop over `items`; we
-                # start the interpretation after it with `branches` = the k raw blocks
-                body = [s for s in stmts]
-                start = 0
-                for idx, s in enumerate(body):
-                    if isinstance(s, ast.While) and "isinstance(items[i + 1], list)" in src(s.test):
-                        start = idx + 1
-                env["branches"] = ["br%d" % j for j in range(k)]
-                it.run(body[start:], env)
-            else:
-                it.run(stmts, env)
-            return lay, it.env, decisions, it
-        except _Case:
-            for a in it.asked:
-                decisions.setdefault(a, True)
-    raise AnalysisError("emit1: could not settle case decisions for %s" % kind)
+            lay, it = _run_once(stmts, kind, k, esplit, dec)
+            out.append((lay, it, dict(dec)))
+        except _Case as c:
+            it = c.args[0] if c.args else None
+            asked = c.asked
+            for val in (True, False):
+                d2 = dict(dec)
+                d2[asked] = val
+                pending.append(d2)
+        if len(seen) > 64:
+            raise AnalysisError("emit1: too many case decisions for %s" % kind)
+    return out
+
+
+def run_case(stmts, kind, k=None, esplit=None):
+    """First interpretation (all unknown conditions true) - kept for callers that need one layout."""
+    res = run_case_all(stmts, kind, k=k, esplit=esplit)
+    lay, it, dec = sorted(res, key=lambda r: sorted((k2, not v) for k2, v in r[2].items()))[0]
+    return lay, it.env, dec, it
